@@ -153,6 +153,35 @@ def no_resume_after_fail(chk):
     chk.floor('decoder entry points that re-enter an interpreter', n, 4)
 
 
+def status_accessors(chk):
+    """"Afterwards the context answers its documented status queries consistently (an error or a result, never both)": the inline
+    accessors of bearssl_x509.h hand out a decoded key only when no error is recorded.  They are header-only, so a small unit that
+    wraps each of them is compiled against the current headers and decided with FOLD (err pinned non-zero => NULL)."""
+    from ..oblig import Ob, FieldLoad, RET
+    from .. import fold as _fold
+    R = 'status-queries-consistent'
+    acc = [('br_x509_decoder_get_pkey', 'br_x509_decoder_context', 'br_x509_pkey *'),
+           ('br_skey_decoder_get_rsa', 'br_skey_decoder_context', 'const br_rsa_private_key *'),
+           ('br_skey_decoder_get_ec', 'br_skey_decoder_context', 'const br_ec_private_key *'),
+           ('br_pkey_decoder_get_rsa', 'br_pkey_decoder_context', 'const br_rsa_public_key *'),
+           ('br_pkey_decoder_get_ec', 'br_pkey_decoder_context', 'const br_ec_public_key *')]
+    txt = '#include "bearssl.h"\n'
+    for fn, st, rt in acc:
+        txt += '%s verif_wrap_%s(%s *ctx) { return %s(ctx); }\n' % (rt, fn, st, fn)
+    unit = build.extra_unit('x509_accessors', txt)
+    U = _fold.FoldUnit('<extra>x509_accessors', unit=unit)
+    _ob._units[('<extra>x509_accessors', 'host')] = U
+    L = irf.Layouts(unit)
+    obs = []
+    for fn, st, rt in acc:
+        o_err = L.field(st, 'err')[0]
+        if fn not in U.funcs:
+            raise AnalysisBroken('inline accessor %s not emitted' % fn)
+        obs.append(Ob('<extra>x509_accessors', fn, FieldLoad(0, o_err, 'err'), ('pin', 33), RET(0), ('pin', 0),
+                      'a decoder that recorded an error must not hand out a key: the caller would use a partially decoded / unvalidated object', rule=R))
+    _ob.run_obligations(chk, obs)
+
+
 def run(tier):
     chk = report.Check('C05', tier,
                        'Static bounds for the T0 virtual machines that parse all untrusted input (X.509, keys, PEM, both handshakes): '
@@ -187,6 +216,7 @@ def run(tier):
     _ob.run_obligations(chk, engio.bounds_obligations())
     engio.offered_regions(chk)
     no_resume_after_fail(chk)
+    status_accessors(chk)
     from .. import bufcopy
     bufcopy.check(chk)
     chk.floor('interpreters', len(t0.INTERPRETERS), 7)
